@@ -20,24 +20,49 @@ RULE = ('the real Rmcp.establish_session / send_and_receive_raw x n / close_sess
         'clean-up after a failure at EVERY step (ping, the four handshake requests, a request), whatever the state of '
         'the interface - the caller of try: open() finally: close() cannot know how far the handshake got; capability '
         'bytes that offer no type at all (00h, 08h, C0h) or no implemented one (MD2 / OEM only), each also followed '
-        'by the clean-up close.  An injected error completion code is a refusal (Spec.BmcSession.stepRefused: the BMC '
+        'by the clean-up close; HISTORIES on the same Rmcp and Session objects in which an earlier session was lost '
+        '(no answer to Set Session Privilege Level / a request / Close Session, also not for the clean-up close: the '
+        'object stays "activated"), followed by a new handshake that fails at Activate Session (silence, 81h no '
+        'session slot, D4h) or at another step, the clean-up close, and a further un-faulted session; the REAL '
+        'keep-alive (keep_alive_interval != 0: call_repeatedly, its thread and stopper, made deterministic by a stand-in '
+        'for `threading` inside rmcp.py whose Event.wait parks the loop until the harness lets one interval elapse) '
+        'over histories open / tick / request / close / open again without close / open after a close that failed / '
+        'three opens / random histories, with an interval elapsing before each exchange of a later handshake.  '
+        'An injected error completion code is a refusal (Spec.BmcSession.stepRefused: the BMC '
         'does not execute the request, the monitor counts the datagram).  Judged: no datagram (retransmissions '
         'included) is flagged by the BMC - in particular no Get Session Challenge for a type the BMC did not offer; '
         'the authentication type asked for is the strongest one offered that IpmiMsg.pack implements; when nothing '
-        'the BMC offers is implemented the outcome is NotSupportedError, and when it offers nothing at all nothing is '
+        'the BMC offers is implemented the outcome is NotSupportedError; Activate Session carries the NULL session '
+        'sequence number (a number left from an earlier session of the same objects is flagged activate-seq-not-null); '
+        'no datagram of a keep-alive thread after Close Session nor after a later establish_session() has begun; and when it offers nothing at all nothing is '
         'sent after the capabilities exchange; the '
         'number of datagrams and the outcome are those of a console that sends each request at most max_retries+1 '
         'times and stops at the first failure; an un-faulted session reaches "closed"; the clean-up close never ends in a '
         'Python error, returns normally when its own datagrams are not hit by a fault, sends exactly one Close Session '
-        'for the granted id when the BMC had granted the session (BMC closed afterwards) and nothing otherwise, and '
-        'leaves no session open on the BMC.  '
+        'for the id granted in THIS handshake when the BMC had granted one (BMC closed afterwards) and nothing otherwise '
+        '(in particular no Close Session for a temporary id), and leaves no session of this handshake open on the BMC.  '
         'The same reply script is '
         'played to the Lean model of the client and every datagram (byte for byte), the outcome and the final '
-        'session state are compared.  Distinct by scenario.')
+        'session state are compared, every round starting from the state the previous rounds left in the objects; the '
+        'number of keep-alive threads during each handshake and after each call is compared with Model.SessionKeepAlive.  '
+        'Distinct by scenario.')
 ASSUMPTIONS = [
     'model of establish_session / _send_and_receive / close_session (lean/PyIpmi/Model/Session.lean) is hand-written and tied by this correspondence run',
     'reference BMC (lean/PyIpmi/Spec/BmcSession.lean) is my reading of IPMI v1.5 section 6.11/6.12 and the session commands; '
-    'it accepts any sequence number on Activate Session and a first in-session number within 8 counts of the assigned one',
+    'it demands the null sequence number on Activate Session (no session is active yet; v1.5 Table 12-8 / v2.0 Table 13-8 '
+    '"Session Seq#": 0000_0000h outside an active session - what every first handshake of the library and ipmitool / '
+    'FreeIPMI send) and accepts a first in-session number within 8 counts of the assigned one',
+    'every handshake (round / open step) meets a reference BMC in its initial state: the BMC (or the slot) an earlier, '
+    'lost session of the same console occupied is not modelled as a second party - "no session slot" is the injected '
+    'refusal 81h of Activate Session; a session that was lost is left to expire on the BMC (the property does not ask '
+    'the console to close a session it could not reach)',
+    'keep-alive: thread bookkeeping only (Model/SessionKeepAlive.lean: which threads are unstopped; tied by thread counts '
+    'and by the shape theorem); that the stopper joins the thread and that keep-alive requests are serialised with '
+    'application requests is C14; one interval elapses only BETWEEN exchanges (the transaction lock is held during one)',
+    'OBSERVATION, not judged (no property has a liveness clause for the keep-alive; findings/c06/round2/'
+    'extra_keepalive_dies): a keep-alive thread ends at the first unanswered keep-alive request - _send_and_receive raises '
+    'RetryError, call_repeatedly catches socket.timeout only - and the console goes on believing the session is kept '
+    'alive; counted in the evidence as keepalive-thread-ended-by:RetryError',
     'an empty receive queue and a peer that answers a datagram at most once (stale / duplicated frames and the keep-alive '
     'thread belong to C04 / C14); a lost datagram is seen by the monitor (it sits on the console side of the wire)',
     'user names are ASCII (IPMI user names are ASCII); the digest function is a parameter of the theorems',
@@ -57,7 +82,7 @@ ASSUMPTIONS = [
     'NOT generated (outside the quantifier / boundary, reported by the audit as observations): no user name configured '
     '(set_auth_type_user never called: user None with MD5 / password raises AttributeError in _padd_password), non-ASCII '
     'user names (padded to 16 characters, not 16 bytes), a bytes user name, requests longer than 255 bytes (consume a '
-    'sequence number without being sent), a second establish_session() without close_session(), OSError from sendto',
+    'sequence number without being sent), OSError from sendto',
 ]
 TRUSTED = ['harness/translate/rmcp.py', 'harness/translate/session.py', 'harness/sim/fakesock.py', 'harness/props/c06.py']
 
@@ -140,9 +165,41 @@ def _probe_noauth(drv):
     return 'i' if (len(rr['sent']) == 2 and rr['outcome'] == 'NotSupportedError') else 's'
 
 
+def _probe_used_objects():
+    """(rs, ka): what establish_session() does FIRST with objects that have been used before, probed with a socket on
+    which nothing is answered (the ping times out, so only the first statements run).
+    rs: 'i' if the caller's Session object is cleared (activated False, sid 0, sequence_number 0), 's' if it is left as
+    it is (as shipped); ka: 'i' if a keep-alive stopper that is still installed is called, 's' if it is not."""
+    rs, ka = 's', 's'
+    try:
+        from pyipmi.interfaces import rmcp as R
+        from pyipmi.session import Session
+        rm = R.Rmcp(keep_alive_interval=0)
+        rm._sock = FakeSock()
+        called = []
+        rm._stop_keep_alive = lambda: called.append(1)
+        session = Session()
+        session.set_session_type_rmcp('192.0.2.1', 623)
+        session.set_auth_type_user('probe', 'probe')
+        session.activated, session.sid, session.sequence_number = True, 0x01020304, 0x55
+        try:
+            rm.establish_session(session)
+        except Exception:  # noqa
+            pass
+        if (session.activated, session.sid, session.sequence_number) == (False, 0, 0):
+            rs = 'i'
+        if called:
+            ka = 'i'
+    except Exception:  # noqa
+        pass
+    return rs, ka
+
+
 def _variants(drv):
     """which variant of each as-shipped / intended place of the model the working tree has (probed on the real code)"""
-    return {'pref': _probe_pref(), 'er': _probe_empty(), 'cg': _probe_close_guard(), 'na': _probe_noauth(drv)}
+    rs, ka = _probe_used_objects()
+    return {'pref': _probe_pref(), 'er': _probe_empty(), 'cg': _probe_close_guard(), 'na': _probe_noauth(drv),
+            'rs': rs, 'ka': ka}
 
 
 # ----------------------------------------------------------------- one scenario on the real code
@@ -201,13 +258,13 @@ def run_real(drv, sc):
                     rm.send_and_receive_raw(Target(0x20), 0, 6, b'\x01')
                 stage = 'close'
                 rm.close_session()
-                if sc.get('closes', 1) == 2:
+                if rnd.get('closes', sc.get('closes', 1)) == 2:
                     rm.close_session()        # a closed session is not closed again
             except Exception as e:  # noqa
                 outcome = _tag(e)
                 n_main = len(sent)
                 # what a caller does in its `finally`: close, whatever was or was not opened (it cannot know)
-                if sc.get('closes', 1) == 'c' and stage != 'close':
+                if rnd.get('closes', sc.get('closes', 1)) == 'c' and stage != 'close':
                     cleanup = 'ok'
                     try:
                         rm.close_session()
@@ -231,9 +288,9 @@ def _model_line(sc, rnd, rr, var):
     pw = bytes.fromhex(sc['pw']['hex']) if sc['pw']['kind'] == 'bytes' else sc['pw']['text'].encode()
     reps = ' '.join('silent' if r is None else lean.hexs(r) for r in rr['replies'])
     s0 = rr['state0']
-    return 'model %s %s %s %s %d %d %s %s %s %d %d %d %d %d %d %d %d %d %s' % (
-        var['pref'], var['er'], var['cg'], var['na'], 1 if sc.get('ignore') else 0, sc.get('max_retries', 0),
-        sc.get('closes', 1), lean.hexs(sc['user'].encode()), lean.hexs(pw),
+    return 'model %s %s %s %s %s %d %d %s %s %s %d %d %d %d %d %d %d %d %d %s' % (
+        var['pref'], var['er'], var['cg'], var['na'], var['rs'], 1 if sc.get('ignore') else 0, sc.get('max_retries', 0),
+        rnd.get('closes', sc.get('closes', 1)), lean.hexs(sc['user'].encode()), lean.hexs(pw),
         sc['priv'],
         rnd['outSeq'], rnd['n'], s0[0], s0[1], s0[2], s0[3], s0[4], s0[5], reps)
 
@@ -272,6 +329,12 @@ def _kind_of(d):
     return d[off + 5] if len(d) > off + 5 else None
 
 
+def _req_data(d):
+    """the data bytes of the IPMI request in a LAN datagram"""
+    off = 4 + (10 if d[4] == 0 else 26)
+    return bytes(d[off + 6:-1])
+
+
 STEP_OF = {'ping': 'ping', 0x38: 'Get Channel Authentication Capabilities', 0x39: 'Get Session Challenge',
            0x3a: 'Activate Session', 0x3b: 'Set Session Privilege Level', 0x3c: 'Close Session', 0x01: 'Get Device ID'}
 
@@ -304,8 +367,18 @@ def _judge_cleanup(ctx, case, rr, inject):
                     observed='%d datagram(s), BMC %s' % (len(extra), rr['bmc']))
         return True
     if not granted and extra:
-        ctx.violate('C06:close-without-session', 'close_session() sent %d datagram(s) although no session had been '
-                    'granted' % len(extra), case, expected='nothing', observed=lean.hexs(extra[0]))
+        sig, what = 'C06:close-without-session', ''
+        if _kind_of(extra[0]) == 0x3c:
+            named = int.from_bytes(_req_data(extra[0])[:4], 'little')
+            tmp = case['rounds'][case['round']]['bmc']['tempSid']
+            sig += ':temporary-id' if named == tmp else ':stale-id'
+            what = ': Close Session for %08xh, %s' % (named, 'the TEMPORARY id of this handshake (never granted)'
+                                                       if named == tmp else 'not an id of this handshake')
+            if case['round'] > 0:
+                what += '; the Session object had been used before (round %d), establish_session() did not clear it' \
+                    % (case['round'] - 1)
+        ctx.violate(sig, 'close_session() sent %d datagram(s) although no session had been granted in this handshake%s'
+                    % (len(extra), what), case, expected='nothing', observed=lean.hexs(extra[0]))
         return True
     if rr['cleanup'] != 'ok':
         ctx.violate('C06:close-after-failed-open:%s' % rr['cleanup'].split(':')[0],
@@ -394,6 +467,10 @@ def judge(ctx, drv, sc, var, tie=True, verbose=False):
                 flagged = True
                 break
         if flagged:
+            # a flagged Activate Session (stale number of an earlier session) makes the handshake fail; the clean-up close
+            # that follows is judged as well: it shows what else the stale state leads to
+            if rr['cleanup'] is not None and i < rr['n_main'] and conforming:
+                _judge_cleanup(ctx, case, rr, inject)
             continue
         if not offered_impl:
             # nothing the BMC offers is implemented: no session is possible.  The library must say so (NotSupportedError),
@@ -471,6 +548,311 @@ def judge(ctx, drv, sc, var, tie=True, verbose=False):
                             % (len(main), sc.get('max_retries', 0), want_n), case, expected=want_n, observed=len(main))
 
 
+# ----------------------------------------------------------------- the real keep-alive, ticked by hand
+class _Ticker(object):
+    """Stands in for the module `threading` inside pyipmi.interfaces.rmcp while a keep-alive scenario runs, so that the
+    REAL call_repeatedly / stopper / thread run deterministically: `Event.wait(interval)` of a keep-alive loop does not
+    sleep, it parks until the harness lets the loop go round once (`tick`) or the event is set (the stopper); the harness
+    thread waits until the loop is parked again (or the thread has ended), so exactly one thread runs at any time.
+    Everything else (`Lock`, `current_thread`, …) is the real module."""
+
+    def __init__(self):
+        import queue
+        import threading
+        self._real = threading
+        self.loops = []                      # one per keep-alive thread: dict(ev, thread, q, died)
+        tk = self
+
+        class Event(object):
+            def __init__(self):
+                self._flag = False
+                self._sem = threading.Semaphore(0)
+                self.loop = {'ev': self, 'thread': None, 'q': queue.Queue(), 'died': None, 'calls': 0}
+                tk.loops.append(self.loop)
+
+            def set(self):
+                self._flag = True
+                self._sem.release()
+
+            def is_set(self):
+                return self._flag
+
+            def wait(self, timeout=None):
+                if self._flag:
+                    return True
+                self.loop['q'].put('parked')
+                self._sem.acquire()
+                if not self._flag:
+                    self.loop['calls'] += 1
+                return self._flag
+
+        class Thread(threading.Thread):
+            def __init__(self, *a, **kw):
+                threading.Thread.__init__(self, *a, **kw)
+                self.loop = tk.loops[-1] if tk.loops and tk.loops[-1]['thread'] is None else None
+                if self.loop is not None:
+                    self.loop['thread'] = self
+
+            def run(self):
+                try:
+                    threading.Thread.run(self)
+                except BaseException as e:  # noqa  (a keep-alive thread that dies is an observation)
+                    if self.loop is not None:
+                        self.loop['died'] = type(e).__name__
+                finally:
+                    if self.loop is not None:
+                        self.loop['q'].put('ended')
+
+            def start(self):
+                threading.Thread.start(self)
+                if self.loop is not None:
+                    tk._settle(self.loop)    # until the loop is parked in its first wait()
+
+        self.Event = Event
+        self.Thread = Thread
+
+    def __getattr__(self, name):
+        return getattr(self._real, name)
+
+    def _settle(self, loop):
+        try:
+            return loop['q'].get(timeout=20)
+        except Exception:  # noqa
+            return 'stuck'
+
+    def running(self):
+        """the keep-alive loops that have not been stopped and whose thread is alive"""
+        return [l for l in self.loops if l['thread'] is not None and l['thread'].is_alive() and not l['ev'].is_set()]
+
+    def unstopped(self):
+        """the keep-alive loops whose stopper has not been called (what the model counts; a loop may have ended on its
+        own - an unanswered keep-alive request raises RetryError, which call_repeatedly does not catch)"""
+        return [l for l in self.loops if l['thread'] is not None and not l['ev'].is_set()]
+
+    def tick(self):
+        """one interval elapses: every running keep-alive loop goes round once, oldest first"""
+        out = []
+        for l in self.running():
+            l['ev']._sem.release()
+            out.append(self._settle(l))
+        return out
+
+    def shutdown(self):
+        for l in self.loops:
+            if l['thread'] is not None and l['thread'].is_alive():
+                l['ev'].set()
+                l['thread'].join(5)
+
+
+def run_real_ka(drv, sc):
+    """A history of establish_session / requests / close_session calls on ONE Rmcp(keep_alive_interval != 0) and ONE
+    Session object, with the real keep-alive (call_repeatedly, its thread and its stopper) ticked by hand: `tick` steps
+    let one interval elapse, `ticks` of an `open` step let one elapse just before the given exchange of the handshake
+    (0 = the ping … 4 = Set Session Privilege Level).  Every datagram is judged and answered by the reference BMC, which
+    is re-initialised when an `open` step begins.  Returns the list of datagram records and the per-step thread counts."""
+    from pyipmi.interfaces import rmcp as R
+    from pyipmi.session import Session
+    from pyipmi import Target
+    import threading
+    tk = _Ticker()
+    saved_threading, saved_rand = R.threading, R.random.randrange
+    R.threading = tk
+    wire, steps = [], []
+    try:
+        rm = R.Rmcp(keep_alive_interval=1, max_retries=sc.get('max_retries', 0))
+        session = Session()
+        session.set_session_type_rmcp('192.0.2.1', 623)
+        pw = bytes.fromhex(sc['pw']['hex']) if sc['pw']['kind'] == 'bytes' else sc['pw']['text']
+        session.set_auth_type_user(sc['user'], pw)
+        session._priv_level = sc['priv']
+        cur = {'step': -1, 'inject': {}, 'n': 0}
+
+        def responder(d):
+            t = threading.current_thread()
+            idx = cur['n']
+            cur['n'] += 1
+            inj = cur['inject'].get(idx) if getattr(t, 'loop', None) is None else None
+            if inj == 'silent':
+                v = drv.ask('bmc-lost ' + lean.hexs(d))
+            elif inj is not None:
+                v = drv.ask('bmc-err %d %s' % (inj, lean.hexs(d)))
+            else:
+                v = drv.ask('bmc ' + lean.hexs(d))
+            wire.append({'step': cur['step'], 'd': d, 'verdict': v, 'bmc': drv.ask('bmc-state'),
+                         'keepalive': None if getattr(t, 'loop', None) is None else tk.loops.index(t.loop)})
+            if v.startswith('reply') and inj != 'silent':
+                return [lean.unhex(v.split()[1])]
+            return []
+        rm._sock = FakeSock(responder=responder)
+        # one interval elapses just before exchange k of a handshake (outside the transaction lock)
+        hook = {'ticks': (), 'k': 0, 'during': []}
+        real_ping, real_sar = rm.ping, rm._send_and_receive
+
+        def before_exchange():
+            if threading.current_thread() is threading.main_thread() and cur.get('in_open'):
+                hook['during'].append(len(tk.unstopped()))
+                if hook['k'] in hook['ticks']:
+                    tk.tick()
+                hook['k'] += 1
+
+        def ping():
+            before_exchange()
+            return real_ping()
+
+        def sar(*a, **kw):
+            before_exchange()
+            return real_sar(*a, **kw)
+        rm.ping, rm._send_and_receive = ping, sar
+        for si, st in enumerate(sc['steps']):
+            cur['step'], cur['n'] = si, 0
+            cur['inject'] = dict((int(k), v) for k, v in st.get('inject', {}).items())
+            rec = {'do': st['do'], 'outcome': 'ok', 'during': None}
+            try:
+                if st['do'] == 'open':
+                    b = st['bmc']
+                    drv.ask('bmc-init %d %s %s %d %d %s %d %d' % (
+                        b['caps'], lean.hexs(b['user'].encode()), lean.hexs(bytes.fromhex(b['pw'])), b['priv'],
+                        b['tempSid'], b['challenge'], b['sid'], b['inSeq0']))
+                    R.random.randrange = lambda a, z, _v=st['outSeq']: _v
+                    hook['ticks'], hook['k'], hook['during'] = tuple(st.get('ticks', ())), 0, []
+                    cur['in_open'] = True
+                    try:
+                        rm.establish_session(session)
+                    finally:
+                        cur['in_open'] = False
+                        rec['during'] = max(hook['during']) if hook['during'] else 0
+                elif st['do'] == 'req':
+                    rm.send_and_receive_raw(Target(0x20), 0, 6, b'\x01')
+                elif st['do'] == 'close':
+                    rm.close_session()
+                elif st['do'] == 'tick':
+                    rec['ticked'] = tk.tick()
+            except Exception as e:  # noqa
+                rec['outcome'] = _tag(e)
+            rec['running'] = len(tk.unstopped())
+            rec['bmc'] = drv.ask('bmc-state')
+            steps.append(rec)
+        died = [l['died'] for l in tk.loops if l['died']]
+    finally:
+        tk.shutdown()
+        R.threading, R.random.randrange = saved_threading, saved_rand
+    return {'wire': wire, 'steps': steps, 'threads': len(tk.loops), 'died': died}
+
+
+def judge_ka(ctx, drv, sc, var, tie=True, verbose=False):
+    res = run_real_ka(drv, sc)
+    case = dict(sc)
+    if verbose:
+        for si, (st, rec) in enumerate(zip(sc['steps'], res['steps'])):
+            print(' step %d: %s%s -> %s; keep-alive threads running afterwards: %d%s; BMC %s'
+                  % (si, st['do'], (' ticks before exchange %s' % list(st['ticks'])) if st.get('ticks') else '',
+                     rec['outcome'], rec['running'],
+                     '' if rec['during'] is None else ' (during the handshake: %d)' % rec['during'], rec['bmc']))
+            for w in res['wire']:
+                if w['step'] == si:
+                    print('   tx %s%s' % (lean.hexs(w['d']), '' if w['keepalive'] is None
+                                          else '   <- keep-alive thread %d' % w['keepalive']))
+                    print('        BMC: %s' % w['verdict'][:100])
+    ctx.count('keepalive-threads', res['threads'])
+    ctx.count('keepalive-datagrams', sum(1 for w in res['wire'] if w['keepalive'] is not None))
+    for d in res['died']:
+        ctx.count('keepalive-thread-ended-by:' + d)      # observation (no liveness clause): see ASSUMPTIONS
+    if any(r['outcome'].startswith('py:') or 'stuck' in (r.get('ticked') or []) for r in res['steps']):
+        ctx.disagree('keep-alive scenario did not run', case, 'every step runs', repr([r['outcome'] for r in res['steps']]))
+        return
+    # ---- model tie: how many keep-alive threads exist during each handshake and after each call
+    if tie:
+        toks, want = [], []
+        for st, rec in zip(sc['steps'], res['steps']):
+            if st['do'] == 'open':
+                toks.append('e1' if rec['outcome'] == 'ok' else 'e0')
+                want.append('h%d,r%d' % (rec['during'], rec['running']))
+            elif st['do'] == 'close':
+                toks.append('c')
+                want.append('r%d' % rec['running'])
+        m = drv.ask('ka %s %s' % (var['ka'], ' '.join(toks)))
+        if m != (' '.join(want) or '-'):
+            ctx.disagree('keep-alive threads', case, m, ' '.join(want))
+    # ---- property: the BMC never objects - nothing after Close Session, nothing of an earlier session once the next
+    # handshake has begun, one chain of sequence numbers in the session
+    for w in res['wire']:
+        if not w['verdict'].startswith('error'):
+            continue
+        why = w['verdict'].split()[1]
+        st = sc['steps'][w['step']]
+        if w['keepalive'] is not None:
+            own = [i for i, x in enumerate(sc['steps'][:w['step'] + 1]) if x['do'] == 'open']
+            if why == 'datagram-after-close':
+                sig = 'C06:keep-alive:datagram-after-close'
+                what = ('close_session() has sent Close Session (step %d); afterwards keep-alive thread %d (of %d started) '
+                        'sends %s for the closed session' % (max(i for i, x in enumerate(sc['steps'][:w['step'] + 1])
+                                                                  if x['do'] == 'close'), w['keepalive'], res['threads'],
+                                                              STEP_OF.get(_kind_of(w['d']), 'a datagram')))
+            else:
+                sig = 'C06:keep-alive:outlives-its-session'
+                what = ('establish_session() (step %d) has begun a new handshake; keep-alive thread %d, started by an '
+                        'earlier establish_session(), sends %s into it (%s)'
+                        % (own[-1] if own else -1, w['keepalive'], STEP_OF.get(_kind_of(w['d']), 'a datagram'), why))
+            ctx.violate(sig, what, case, expected='no datagram of a keep-alive thread after Close Session, nor after the next '
+                        'establish_session() has begun', observed=lean.hexs(w['d']))
+        else:
+            ctx.violate('C06:bmc-objects:%s' % why, 'the reference BMC flags a datagram of step %d (%s, %s): %s'
+                        % (w['step'], st['do'], STEP_OF.get(_kind_of(w['d']), 'datagram'), why), case,
+                        expected='a datagram that follows the v1.5 session rules', observed=lean.hexs(w['d']))
+        return
+    # un-faulted steps succeed; after an un-faulted close the BMC is closed
+    for si, (st, rec) in enumerate(zip(sc['steps'], res['steps'])):
+        if not st.get('inject') and st['do'] in ('open', 'req', 'close') and rec['outcome'] != 'ok' \
+                and not any(sc['steps'][j].get('inject') for j in range(si)):
+            ctx.violate('C06:keep-alive:session-fails:%s' % rec['outcome'].split(':')[0],
+                        'step %d (%s) of a history with a running keep-alive ends with %s' % (si, st['do'], rec['outcome']),
+                        case, expected='ok', observed=rec['outcome'])
+            return
+
+
+def _ka_scenarios(rng, tier):
+    out = []
+
+    def bmc(user, pw, priv):
+        return {'caps': rng.choice([0x04, 0x10, 0x01, 0x15]), 'user': user, 'pw': _pwhex(pw), 'priv': priv,
+                'tempSid': _b32(rng), 'challenge': bytes(rng.randrange(256) for _ in range(16)).hex(), 'sid': _b32(rng),
+                'inSeq0': _b32(rng, False)}
+
+    def mk(steps_fn):
+        user, pw, priv = _user(rng), _pw(rng), rng.choice([2, 3, 4])
+
+        def op(**kw):
+            return dict({'do': 'open', 'bmc': bmc(user, pw, priv), 'outSeq': rng.randrange(1, 0xffffffff)}, **kw)
+        return {'op': 'ka', 'user': user, 'pw': pw, 'priv': priv, 'max_retries': 0, 'steps': steps_fn(op)}
+    T, Q, C = {'do': 'tick'}, {'do': 'req'}, {'do': 'close'}
+    # one session with its keep-alive: ticks in the session, none after the close
+    out.append(('keepalive:one-session', mk(lambda op: [op(), T, Q, T, T, C, T, T])))
+    # open, close, open again, close
+    out.append(('keepalive:two-sessions', mk(lambda op: [op(), T, C, T, op(), T, Q, C, T])))
+    # open, open again WITHOUT close (log in again with other credentials / reconnect), close
+    out.append(('keepalive:reopen-without-close', mk(lambda op: [op(), T, op(), T, Q, C, T, T])))
+    # an interval elapses while the second handshake is under way, before exchange k
+    for k in range(5):
+        out.append(('keepalive:tick-during-second-handshake', mk(lambda op, k=k: [op(), T, op(ticks=[k]), T, C, T])))
+    # the disciplined reconnect: the session is lost (Close Session unanswered: close raises), establish again, close
+    out.append(('keepalive:lost-close-then-reopen', mk(lambda op: [op(), T, dict(C, inject={'0': 'silent'}), T, op(), T, C, T])))
+    # the second handshake fails at step k (the first session's thread must be gone all the same), then close
+    for k in (1, 3, 4):
+        out.append(('keepalive:reopen-fails', mk(lambda op, k=k: [op(), T, op(inject={str(k): 'silent'}), T, C, T])))
+    # three handshakes in a row
+    out.append(('keepalive:three-opens', mk(lambda op: [op(), op(), T, op(ticks=[0, 3]), T, C, T])))
+    for _ in range(4 if tier == 'quick' else 60):
+        def steps(op):
+            st, is_open = [op()], True
+            for _i in range(rng.randrange(2, 8)):
+                x = rng.choice([T, T, Q, C, op(), op(ticks=[rng.randrange(5)])] if is_open else [T, op(), C])
+                is_open = x['do'] == 'open' or (is_open and x['do'] != 'close')
+                st.append(x)
+            return st + [C, T]
+        out.append(('keepalive:random-history', mk(steps)))
+    return out
+
+
 # ----------------------------------------------------------------- generators
 def _b32(rng, nonzero=True):
     while True:
@@ -505,7 +887,7 @@ def _pwhex(pw):
 
 
 def _scenario(rng, caps=None, inSeq0=None, n=None, user=None, pw=None, priv=None, inject=None, rounds=1, ignore=0,
-              max_retries=0, closes=1):
+              max_retries=0, closes=1, rcloses=None):
     user = _user(rng) if user is None else user
     pw = _pw(rng) if pw is None else pw
     priv = rng.choice([2, 3, 4, 4, 5]) if priv is None else priv
@@ -518,6 +900,8 @@ def _scenario(rng, caps=None, inSeq0=None, n=None, user=None, pw=None, priv=None
                    'outSeq': rng.choice([1, 0xfffffffe, rng.randrange(1, 0xffffffff)]),
                    'n': rng.randrange(0, 5) if n is None else n,
                    'inject': (inject[ri] if isinstance(inject, list) else inject) or {}})
+        if rcloses is not None:
+            rs[-1]['closes'] = rcloses[ri]
     return {'op': 'session', 'user': user, 'pw': pw, 'priv': priv, 'ignore': ignore, 'max_retries': max_retries,
             'closes': closes, 'rounds': rs}
 
@@ -589,6 +973,33 @@ def _scenarios(rng, tier):
             out.append(('failed-then-new-attempt@%d' % k,
                         _scenario(rng, caps=rng.choice([0x04, 0x10, 0x15]), rounds=2, n=1, inject=[{str(k): f}, {}],
                                   closes=rng.choice([1, 'c']))))
+    # HISTORIES on the same objects in which an earlier session was LOST (the object stays "activated": the answer to
+    # Set Session Privilege Level, to a request or to Close Session never came, also not for the clean-up close), then a
+    # new handshake that fails at Activate Session (silence, or refused: 81h no session slot - the old session still
+    # occupies it -, D4h), then the clean-up close; and then a further, un-faulted session on the same objects
+    for R in ((0, 1) if tier == 'quick' else (0, 1, 2)):
+        lost = [('setpriv-lost', dict((str(4 + i), 'silent') for i in range(R + 1)), 1, 0),
+                ('setpriv-and-cleanup-lost', dict((str(4 + i), 'silent') for i in range(2 * (R + 1))), 'c', 0),
+                ('request-lost', dict((str(5 + i), 'silent') for i in range(R + 1)), 1, 1),
+                ('close-lost', dict((str(6 + i), 'silent') for i in range(R + 1)), 1, 1),
+                ('setpriv-refused', {'4': 0xd4}, 1, 0)]
+        for name, inj1, cl1, n1 in lost:
+            for f2 in ('silent', 0x81, 0xd4):
+                inj2 = dict((str(3 + i), 'silent') for i in range(R + 1)) if f2 == 'silent' else {'3': f2}
+                sc = _scenario(rng, caps=rng.choice([0x04, 0x10, 0x15]), rounds=3, n=n1, max_retries=R,
+                               inject=[inj1, inj2, {}], rcloses=[cl1, 'c', 1],
+                               inSeq0=rng.choice([None, 0xfffffffe, 0xffffffff]))
+                out.append(('session-lost-then-activate-fails-then-cleanup:' + name, sc))
+        # … and the new handshake fails at another step, or not at all
+        for k2 in (1, 2, 4):
+            inj2 = dict((str(k2 + i), 'silent') for i in range(R + 1))
+            out.append(('session-lost-then-fault@%d-then-cleanup' % k2,
+                        _scenario(rng, caps=rng.choice([0x04, 0x10]), rounds=3, n=1, max_retries=R,
+                                  inject=[dict((str(4 + i), 'silent') for i in range(R + 1)), inj2, {}],
+                                  rcloses=[1, 'c', 1])))
+        out.append(('session-lost-then-new-session',
+                    _scenario(rng, caps=rng.choice([0x04, 0x10, 0x01]), rounds=2, n=2, max_retries=R,
+                              inject=[dict((str(5 + i), 'silent') for i in range(R + 1)), {}], rcloses=[1, 2])))
     out.append(('ignore-len', _scenario(rng, caps=0x15, ignore=1)))
     # a failure at every step - the ping (0), the four handshake requests (1..4), a request (5) - by silence for the
     # whole retry budget or an error completion code, then the caller's clean-up close_session(): it is called
@@ -643,6 +1054,13 @@ def run(ctx):
         if ctx.time_left() < 20:
             ctx.notes.append('time budget reached after %d of %d scenarios' % (i, len(scs)))
             break
+    # the real keep-alive over histories of establish / close calls on one interface
+    ctx.extra['session_reset_variant'] = names[var['rs']]
+    ctx.extra['keepalive_stop_variant'] = names[var['ka']]
+    for kind, sc in _ka_scenarios(rng, ctx.tier):
+        ctx.case(('ka', repr(sc)))
+        ctx.count('scenario:' + kind)
+        judge_ka(ctx, drv, sc, var)
     # model client against the reference BMC behind a lossy network, entirely in Lean (what the theorems are about), sampled
     for _ in range(40 if ctx.tier == 'quick' else 400):
         R = rng.choice([0, 0, 1, 2, 3])
@@ -676,6 +1094,13 @@ def replay(ctx, v):
     case.pop('round', None)
     drv = ctx.driver('drv_c06')
     c2 = ctx.__class__('C06', 'quick', 0)
+    if case.get('op') == 'ka':
+        print('keep-alive scenario: user=%r priv=%d steps=%s' % (case['user'], case['priv'],
+                                                                  ' '.join(s['do'] for s in case['steps'])))
+        judge_ka(c2, drv, case, _variants(drv), tie=False, verbose=True)
+        for x in c2.violations:
+            print('  %s: %s' % (x['signature'], x['what']))
+        return bool(c2.violations)
     print('scenario: user=%r priv=%d rounds=%d' % (case['user'], case['priv'], len(case['rounds'])))
     for r in case['rounds']:
         print('  BMC: %s  n=%d inject=%s' % (r['bmc'], r['n'], r.get('inject')))
